@@ -1,2 +1,62 @@
-import Moclo.Model.Entity
-/-! placeholder for C07 (theorems follow) -/
+import Moclo.Proofs.Assembly
+/-!
+# C07 — assembly is pure: inputs are left untouched, even when it fails
+
+Model: `assemble` returns, next to the outcome, the state of the input records after the call (vector
+first, then the modules in argument order).  Inside, the citation lists of the inputs really are
+rewritten (`derefRec`) and put back (`restore ∘ snapshot`) on every exit path; `Ent.faulty` stands for an
+arbitrary exception raised by a fragment extraction.
+-/
+namespace Moclo.C07
+open Moclo
+
+/-- **every input is left exactly as it was**, for every vector, every list of modules, every citation
+state and every outcome: product, warning (unused modules), invalid vector, duplicate at map building,
+missing module after any number of consumed modules, invalid module, exception raised by any fragment
+extraction (any assignment of the `faulty` flags) -/
+theorem inputs_unchanged (v : Ent) (mods : List Ent) (pid pname : Nat) :
+    (assemble v mods pid pname).2 = v.rcd :: mods.map (·.rcd) := assemble_inputs v mods pid pname
+
+/-- the step that makes this non-trivial: dereferencing does change the records, and restoring the snapshot
+undoes it exactly -/
+theorem restore_undoes_deref {r r' : Rec} (h : derefRec r = some r') : restore (snapshot r) r' = r :=
+  restore_deref h
+
+/-- rebuild the entities from the records an assembly left behind -/
+def withRecs (v : Ent) (mods : List Ent) : List Rec → Ent × List Ent
+  | [] => (v, mods)
+  | r :: rs => ({ v with rcd := r }, (mods.zip rs).map (fun p => { p.1 with rcd := p.2 }))
+
+theorem withRecs_self (v : Ent) (mods : List Ent) : withRecs v mods (v.rcd :: mods.map (·.rcd)) = (v, mods) := by
+  unfold withRecs
+  simp only [Prod.mk.injEq, true_and]
+  induction mods with
+  | nil => rfl
+  | cons m ms ih => simp only [List.map_cons, List.zip_cons_cons]; rw [ih]
+
+/-- **repeatable**: calling again on the very same objects — after a success, a warning or any failure —
+returns what the first call returned (and what a first call on fresh copies returns, the model being a
+function of the records' contents) -/
+theorem second_call_same (v : Ent) (mods : List Ent) (pid pname : Nat) :
+    let first := assemble v mods pid pname
+    let again := withRecs v mods first.2
+    assemble again.1 again.2 pid pname = first := by
+  simp only []
+  rw [inputs_unchanged, withRecs_self]
+
+/-- **retry after a failure**: whatever was attempted first, a later call with a corrected module list over
+the same vector object sees the vector as it originally was -/
+theorem retry_sees_original_vector (v : Ent) (bad good : List Ent) (pid pname : Nat) :
+    let first := assemble v bad pid pname
+    assemble (withRecs v bad first.2).1 good pid pname = assemble v good pid pname := by
+  simp only []
+  rw [inputs_unchanged, withRecs_self]
+
+/-! non-vacuity: a record whose citation is really rewritten while the assembly runs -/
+example :
+    let r : Rec := { rid := 1, seq := [], feats := [{ ftype := 1, qual := .user 0, parts := [⟨0, 1, 1⟩], cites := [.idx 2] }],
+                     refs := [100, 101] }
+    (derefRec r).map (fun r' => (r'.feats.map (·.cites), (restore (snapshot r) r').feats.map (·.cites)))
+      = some ([[.ref 101]], [[.idx 2]]) := by decide
+
+end Moclo.C07
